@@ -68,6 +68,13 @@ func New(p *load.Program) *Prog {
 
 var progRegistry sync.Map // *ssa.Program → *Prog
 
+// Forget drops p from the registry (variants analysed in one process must not accumulate).
+func Forget(p *Prog) {
+	if p != nil && len(p.Funcs) > 0 {
+		progRegistry.Delete(p.Funcs[0].Prog)
+	}
+}
+
 // ProgOf returns the indexed program a function belongs to (nil if unknown).
 func ProgOf(f *ssa.Function) *Prog {
 	if f == nil {
